@@ -395,7 +395,7 @@ class Scenario:
         elif name.startswith("rt:"):
             # rt:<origin a|b>:<T 0|1>:<end-to-end id from a small pool>   (requests relayed for two origin hosts)
             parts = name.split(":")
-            origin = {"a": "origin-a.example.org", "b": "origin-b.example.org"}[parts[1]]
+            origin = {"a": "origin-a.example.org", "b": "origin-b.example.org", "p": host}[parts[1]]      # p: the peer itself is the origin
             d = env.acr(host=origin, hbh=hbh, e2e=0x7000 + int(parts[3]), flags=R | P | (T if parts[2] == "1" else 0))
         elif name.startswith("rh0:"):
             # hop-by-hop id from the pool, end-to-end id 0 (a legal value)
